@@ -3,7 +3,8 @@
    The end-to-end statement (directives still evaluate, same unwind state at every surviving instruction) is decided on the
    implementation with its own evaluator (the subject of C15) by harness/c08.py. *)
 From Coq Require Import ZArith List Bool Arith.
-From GR Require Import Base.Result IR.State IR.Modify IR.Edit IR.Cfi.
+From GR Require Import Base.Result IR.State IR.Modify IR.Edit IR.Cfi IR.CfiView IR.FindingsGen CfiEval.Model.
+From Coq Require Import String.
 Import ListNotations.
 Open Scope Z_scope.
 
@@ -79,3 +80,25 @@ Example C08_nonvacuous :
   = [(DRemember, 1); (DRestore, 7); (DStart, 8)] /\
   split_at_endproc [(DOther, 1); (DEnd, 2); (DStart, 3)] = ([(DOther, 1)], [(DEnd, 2); (DStart, 3)]).
 Proof. split; vm_compute; reflexivity. Qed.
+
+(* ===== the recorded finding, end to end over the two models (rewriting core IR/*.v, CFI evaluator CfiEval/Model.v) =====
+   "If the directives evaluate cleanly, they still do after the rewrite" is FALSE: block 2 = [nop2; ret] opens procedure 1 with
+   .cfi_startproc, .cfi_def_cfa 7, 7 at its first instruction; deleting the block keeps the startproc (re-homed to block 3) and drops the
+   .cfi_def_cfa with the instruction, so the .cfi_def_cfa_offset at the end of block 3 finds no register+offset CFA.
+   Known finding C08-def-cfa-dropped-with-the-entry-instruction (witness: IR/FindingsGen.v, module H1). *)
+Definition h1_names (d : State.directive) : CfiEval.Model.directive :=
+  match d with
+  | (DStart, _) => (".cfi_startproc"%string, [], SymNull)
+  | (DEnd, _) => (".cfi_endproc"%string, [], SymNull)
+  | (DRemember, _) => (".cfi_remember_state"%string, [], SymNull)
+  | (DRestore, _) => (".cfi_restore_state"%string, [], SymNull)
+  | (DOther, k) => if (k =? 1) || (k =? 7) then (".cfi_def_cfa"%string, [7; k], SymNull)
+                   else if k =? 10 then (".cfi_undefined"%string, [k], SymNull)
+                   else (".cfi_def_cfa_offset"%string, [k], SymNull)
+  end.
+
+Theorem C08_def_cfa_dropped_with_the_entry_instruction_refuted :
+  cfi_verdict H1.W_state h1_names 0 = None /\
+  exists s', H1.final = Some s' /\ cfi_verdict s' h1_names 0 = Some CFIStateErr /\
+    cfi_get (cfi H1.W_state) 2 0 = [(DStart, 6); (DOther, 7)] /\ cfi_get (cfi s') 3 0 = [(DStart, 6)].
+Proof. split; [vm_compute; reflexivity|]. eexists. split; [vm_compute; reflexivity|]. repeat split; vm_compute; reflexivity. Qed.
